@@ -344,7 +344,7 @@ fn dump(path: &str) {
         rs::Front::Diag(d) => println!("front end: {}", d),
         rs::Front::Panic(c) => println!("front end PANIC {:?}", c),
     }
-    for t in [rs::Tgt::Dx, rs::Tgt::Msl] {
+    for t in if std::env::var("DUMP_ALL").is_ok() { vec![rs::Tgt::Dx, rs::Tgt::Vk, rs::Tgt::VkBa, rs::Tgt::Msl] } else { vec![rs::Tgt::Dx, rs::Tgt::Msl] } {
         let o = rs::compile_text(&text, &rs::Opts::new(t, rs::Mode::NoPipeline));
         match &o {
             rs::Outcome::Ok(p) => println!("---- {} ----\n{}", t.name(), p[0].source),
